@@ -75,7 +75,15 @@ class FakeReactor:
         self.n += 1
         lag = self.seams.reactor_lag(self.n)
         self.k.rec("callFromThread", getattr(fn, "__name__", "?"))
-        self.k.after(lag, self.seams.reactor_node, lambda: fn(*args, **kw), tag="reactor")
+        self.k.after(lag, self.seams.reactor_node, self._call, fn, args, kw, tag="reactor")
+
+    def _call(self, fn, args, kw):
+        # like the real reactor: an exception in a callFromThread callable is logged, the loop goes on
+        try:
+            fn(*args, **kw)
+        except Exception as e:      # noqa
+            self.seams.logged_errors.append((self.k.now, "reactor: unhandled error in %s" % getattr(fn, "__name__", "?"),
+                                             type(e).__name__, str(e)[:160]))
 
     def stop(self):
         self.stopped = True
